@@ -144,6 +144,7 @@ type Interp struct {
 	labelsSeen map[string]bool
 	inInit      *ssa.Package
 	stepBudget  int
+	sizeSampling bool
 	log2Exp     map[int]Int
 	InitNotes   []string
 	pendingBind []Val
@@ -323,7 +324,11 @@ func (it *Interp) concretize(v Int, max int, why string) uint64 {
 		}
 	}
 	if !complete {
-		it.noteIncomplete(fmt.Sprintf("concretisation of %s kept %d values, more are feasible", why, len(vals)))
+		if it.sizeSampling {
+			it.res.Bounds["size_fields_sampled_at_most"] = max
+		} else {
+			it.noteIncomplete(fmt.Sprintf("concretisation of %s kept %d values, more are feasible", why, len(vals)))
+		}
 	}
 	if len(vals) == 0 {
 		it.endPath("no feasible value for "+why, false)
@@ -544,6 +549,7 @@ func (it *Interp) runPath(fn *ssa.Function) (end *pathEnd) {
 	it.steps = 0
 	it.loopBound = it.opt.LoopBound
 	it.stepBudget = 0
+	it.sizeSampling = false
 	it.allocBudg = 1 << 24
 	it.obs = nil
 	it.depth = 0
